@@ -167,6 +167,15 @@ func c19Systematic(tier string) []*Case {
 			out = append(out, cs)
 		}
 	}
+	// runaway recursion is a runtime error like any other: status 70, not a dead process
+	{
+		prog := lines(KwPrint+" \"before\";", KwFun+" f(n) { "+KwReturn+" f(n + 1) + 1; }", "f(0);", KwPrint+" \"after\";")
+		cfg := scriptCfg(prog, "")
+		cfg.Budget = 400000000
+		cs := &Case{Prop: "C19", Kind: "class", Sig: "class:rt:runaway-recursion", Program: prog, Runs: []Run{{Role: "fresh-process:line", Cfg: cfg}}}
+		cs.ExpectStdout, cs.ExpectExit, cs.ExpectStderr = ptrS("before\n"), ptrI(70), "nonempty"
+		out = append(out, cs)
+	}
 	// no argument: REPL; end of input ends it with status 0
 	{
 		c := sim.Config{Args: []string{"borno"}, StdinErrAt: -1}
